@@ -6,10 +6,13 @@
    written directly over the list of runes, which answers Accept forest, Reject, or Ambiguous on the
    constructs the property excludes.  [terminated input] is the input forced to end in a line break, which
    is what yang.Parse lexes.  The hypothesis that the text does not contain the rune 0x7fffffff (the
-   lexer's end-of-file sentinel) holds for every decoded text: UTF-8 decoding yields runes below 0x110000. *)
+   lexer's end-of-file sentinel) holds for every decoded text: UTF-8 decoding yields runes below 0x110000
+   — proved below for the model of the decoding the lexer performs (Model/Utf8.v: one
+   utf8.DecodeRuneInString per call of lexer.next), so that (3) is restated over the BYTES of a file with
+   no hypothesis on the text at all ([C02_accept_bytes], [C02_reject_bytes]). *)
 From Coq Require Import List NArith ZArith Bool Lia.
 Import ListNotations.
-From GY Require Import Model.Lex Model.Parse Spec.C16 Spec.C02 Proofs.LexProofs Proofs.ParseProofs.
+From GY Require Import Model.Lex Model.Parse Model.Utf8 Spec.C16 Spec.C02 Proofs.LexProofs Proofs.ParseProofs Proofs.Utf8Proofs.
 Local Open Scope Z_scope.
 
 (* (1) the shape of the result: statements and errors never come together *)
@@ -62,6 +65,49 @@ Theorem C02_reject : forall input, ~ In EOFR input -> spec_parse (terminated inp
   forall ss es o, Parse input = (ss, es, o) -> ss = [] /\ es <> [].
 Proof. exact Parse_rejects. Qed.
 
+(* (4) from the BYTES of the file.  [decode] is the rune sequence lexer.next hands to the state machine
+   (Model/Utf8.v: utf8.DecodeRuneInString, width-1 U+FFFD for every ill-formed byte).  Every rune it yields is a
+   Unicode scalar value, hence never the end-of-file sentinel: the hypothesis of (2) and (3) holds for EVERY byte
+   string, well-formed UTF-8 or not. *)
+Theorem C02_decode_scalar : forall s, Forall (fun r => scalar r = true) (decode s).
+Proof. exact decode_scalar. Qed.
+
+Theorem C02_decode_no_eof : forall s, ~ In EOFR (decode s).
+Proof. exact decode_no_eof. Qed.
+
+(* decoding inverts Go's encoding on every sequence of scalar values (so a text and its bytes denote each
+   other), is the identity on ASCII, re-encodes to a text that reads the same, never yields more runes than
+   bytes, and is the loop "decode one rune, skip its width" the lexer runs *)
+Theorem C02_decode_encode : forall rs, Forall (fun r => scalar r = true) rs -> decode (encode rs) = rs.
+Proof. exact decode_encode. Qed.
+
+Theorem C02_decode_ascii : forall s, Forall (fun b => (b < 128)%N) s -> decode s = s.
+Proof. exact decode_ascii. Qed.
+
+Theorem C02_decode_stable : forall s, decode (encode (decode s)) = decode s.
+Proof. exact decode_encode_decode. Qed.
+
+Theorem C02_decode_is_the_lexer_loop : forall fuel s, (length s <= fuel)%nat -> decode_loop fuel s = decode s.
+Proof. exact decode_loop_eq. Qed.
+
+Theorem C02_decode_step : forall s0 r0,
+  decode (s0 :: r0) = fst (decode_rune (s0 :: r0)) :: decode (skipn (snd (decode_rune (s0 :: r0))) (s0 :: r0))
+  /\ (1 <= snd (decode_rune (s0 :: r0)) <= length (s0 :: r0))%nat.
+Proof. exact (fun s0 r0 => conj (decode_unfold s0 r0) (decode_rune_width s0 r0)). Qed.
+
+(* newLexer's forcing of a final line break, done on the bytes, is the forcing on the decoded text that (3) speaks of *)
+Theorem C02_terminated_bytes : forall s, decode (terminated_bytes s) = terminated (decode s).
+Proof. exact decode_terminated. Qed.
+
+(* (3) for every byte string, no side condition *)
+Theorem C02_accept_bytes : forall bytes f, spec_parse (terminated (decode bytes)) = Accept f ->
+  exists ss, Parse_bytes bytes = (ss, [], false) /\ map erase ss = f.
+Proof. exact (fun bytes f => Parse_accepts (decode bytes) f (decode_no_eof bytes)). Qed.
+
+Theorem C02_reject_bytes : forall bytes, spec_parse (terminated (decode bytes)) = Reject ->
+  forall ss es o, Parse_bytes bytes = (ss, es, o) -> ss = [] /\ es <> [].
+Proof. exact (fun bytes => Parse_rejects (decode bytes) (decode_no_eof bytes)). Qed.
+
 (* non-vacuity: a text with a comment, a concatenation, a multi-line string and a pattern argument *)
 Example C02_accept_ex :
   spec_parse [97;32;39;98;39;43;34;99;10;32;32;32;100;34;123;112;97;116;116;101;114;110;32;34;92;100;34;59;125;10]%N =
@@ -69,4 +115,10 @@ Example C02_accept_ex :
 Proof. vm_compute. reflexivity. Qed.
 (* a text that ends inside a block *)
 Example C02_reject_ex : spec_parse [97;32;123;32;98;59;10]%N = Reject.
+Proof. vm_compute. reflexivity. Qed.
+(* bytes: a, e-acute (C3 A9), euro sign (E2 82 AC), U+1F600 (F0 9F 98 80), then ill-formed bytes: FF, an overlong
+   C0 80, a surrogate ED A0 80, a truncated E2 82 -- every one of them is one U+FFFD *)
+Example C02_decode_ex :
+  decode [97; 195; 169; 226; 130; 172; 240; 159; 152; 128; 255; 192; 128; 237; 160; 128; 226; 130]%N =
+  [97; 233; 8364; 128512; 65533; 65533; 65533; 65533; 65533; 65533; 65533; 65533]%N.
 Proof. vm_compute. reflexivity. Qed.
